@@ -108,3 +108,6 @@ add('C31','model_checking','exhaustive enumeration of (blocks per session x subm
 add('C34','model_checking','stateless model checking of the real HandleRelay/SendClaimTx under a hand-written cooperative scheduler (scheduling points = evidence-cache and servicer mutex operations, hooked by a build overlay), depth-first over all schedules up to a preemption bound',
  'Six 2-3 goroutine scenarios (identical relays, distinct relays, three relays at a limit of two, relays racing the real claim-time sealing) on a real chain state; every schedule with <= 2 preemptions (thorough: 50, i.e. all) is executed on freshly cleared caches and the stored evidence is compared with the responses (no duplicate, count, limit, every answered relay recorded, identical relay answered once, claimed count = stored count); the default schedule is replayed twice and must be identical.',
  'Accesses between two lock operations of one goroutine are atomic for the scheduler; a free-running race-detector pass is not part of the check.')
+add('C12','model_checking','explicit-state BFS over real ABCI blocks with every explored history re-executed under enumerated nondeterminism seams (runtime map hash seed + iteration start from an environment variable via a build overlay of runtime/map.go; Go faketime clock; fresh processes) and block results compared',
+ 'Every history up to the depth (plus three long reward/jail histories) is executed by the base worker and by repeat, map-order k (3 quick / 10 thorough) and fake-clock workers fed the identical transaction bytes; per-transaction code/data, validator updates and app hash of every block must be identical.',
+ 'Map order varies over the enumerated seeds, not over all permutations; goroutine scheduling inside block execution is not varied (execution is single-threaded).')
